@@ -129,6 +129,7 @@ def run_scenarios(scenarios, workdir, profile="rel", jobs=None):
 # ---------------------------------------------------------------------------------------------------
 TRACE_SPECS = {
     "TraceTwin": "TraceTwin.cfg",
+    "TraceBoundary": "TraceBoundary.cfg",
     "TraceProps": "TraceProps.cfg",
     "TraceHB": "TraceHB.cfg",
     "TraceCounter": "TraceCounter.cfg",
@@ -223,11 +224,11 @@ def model_check(name, module, constants, invariants, view="view", deadlock=False
     return out
 
 
-def generate(name, module, constants, mode, n=0, depth=200, seed=1, timeout=900, spec="SpecGen"):
+def generate(name, module, constants, mode, n=0, depth=200, seed=1, timeout=900, spec="SpecGen", tag="SCN", inv="GenEmit"):
     """Behaviours of the model as harness scenarios: mode 'all' (every behaviour, history variable makes
     each path a state) or 'sim' (TLC -simulate).  Returns list of h records {sched, prog}."""
     key = "gen_%s_%s" % (name, hashlib.sha256(json.dumps(
-        [spec_hash(), module, sorted((k, str(v)) for k, v in constants.items()), mode, n, depth, seed, spec],
+        [spec_hash(), module, sorted((k, str(v)) for k, v in constants.items()), mode, n, depth, seed, spec, tag, inv],
         sort_keys=True).encode()).hexdigest()[:16])
     c = cache_get(key)
     if c:
@@ -235,15 +236,15 @@ def generate(name, module, constants, mode, n=0, depth=200, seed=1, timeout=900,
     cfgdir = os.path.join(WORK, "cfg")
     os.makedirs(cfgdir, exist_ok=True)
     cfg = os.path.join(cfgdir, "%s_%d.cfg" % (name, os.getpid()))
-    write_cfg(cfg, spec=spec, constants=constants, invariants=["GenEmit"], view=None, deadlock=False)
+    write_cfg(cfg, spec=spec, constants=constants, invariants=[inv], view=None, deadlock=False)
     extra = []
     if mode == "sim":
         extra = ["-simulate", "num=%d" % n, "-depth", str(depth), "-seed", str(seed)]
     r = run_tlc(module, cfg, workers=1 if mode == "all" else 4, timeout=timeout, extra=extra)
     os.remove(cfg)
-    if r.error and not r.timeout and "SCN" not in r.out:
+    if r.error and not r.timeout and tag not in r.out:
         raise ToolError("TLC generation error in %s:\n%s" % (name, r.out[-2500:]))
-    hs = r.printed("SCN")
+    hs = r.printed(tag)
     seen = set()
     out = []
     for hrec in hs:
@@ -286,6 +287,9 @@ def scenario_of(hrec, sid, kind, ln, nthreads, extra=None):
     sc = {"id": sid, "kind": kind, "len": ln,
           "threads": [steps_of(prog_of(hrec, t)) for t in range(1, nthreads + 1)],
           "sched": hrec["sched"], "policy": "rr", "post": steps_of(prog_of(hrec, 0))}
+    if not sc["post"]:
+        # standard epilogue of generated behaviours: make the final shared state observable
+        sc["post"] = [{"op": "hasmore"}, {"op": "next"}, {"op": "intoseq"}]
     if extra:
         sc.update(extra)
     return sc
